@@ -75,6 +75,10 @@ pub struct ThreadPlan {
     pub start: Start,
     pub hash_key: u64,
     pub steps: Vec<Step>,
+    /// stack size of the caller thread in KiB (0 = 1 MiB). Part of the environment a result
+    /// must not depend on: it changes where the thread's stack lies relative to its heap arena.
+    #[serde(default)]
+    pub stack_kb: u32,
 }
 
 #[derive(Clone, Debug, Serialize, Deserialize)]
@@ -363,6 +367,21 @@ pub fn generate(g: &GenCtx, seed: u64) -> Scenario {
                     }
                     continue;
                 }
+                if rng.pct(20) && f.len() >= 3 {
+                    // walk: a run of consecutive family members in their natural order or in
+                    // reverse (ascending / descending resolutions, growing / shrinking offsets)
+                    let len = rng.range(2, (f.len() as i64).min(30)) as usize;
+                    let start = rng.below((f.len() - len + 1) as u64) as usize;
+                    let mut run: Vec<u32> = f[start..start + len].to_vec();
+                    if rng.pct(50) {
+                        run.reverse();
+                    }
+                    for ix in run {
+                        let op = intern(&mut sc, ix);
+                        steps.push(Step { op, repeat: 1, rekey: None });
+                    }
+                    continue;
+                }
                 let a = intern(&mut sc, *rng.pick(f));
                 steps.push(Step { op: a, repeat: 1, rekey: None });
                 for _ in 0..rng.range(1, 3) {
@@ -388,7 +407,15 @@ pub fn generate(g: &GenCtx, seed: u64) -> Scenario {
                 _ => Start::AfterExit(rng.below(t as u64) as u8),
             }
         };
-        sc.threads.push(ThreadPlan { start, hash_key: rng.next_u64(), steps });
+        // caller threads come with all kinds of stack sizes (at most two very large ones per run)
+        let stack_kb = if rng.pct(80) {
+            0
+        } else {
+            let big_so_far = sc.threads.iter().filter(|t| t.stack_kb >= 65536).count();
+            let c = *rng.pick(&[128u32, 512, 4096, 65536, 262144]);
+            if c >= 65536 && big_so_far >= 2 { 4096 } else { c }
+        };
+        sc.threads.push(ThreadPlan { start, hash_key: rng.next_u64(), steps, stack_kb });
     }
     // contention: several threads hammer the same few near-identical calls (one family), with
     // every yield site active and a high preemption rate - process-wide keyed state (hand-off
@@ -409,7 +436,7 @@ pub fn generate(g: &GenCtx, seed: u64) -> Scenario {
                 let op = intern(&mut sc, *rng.pick(&members));
                 steps.push(Step { op, repeat: 1, rekey: None });
             }
-            sc.threads.push(ThreadPlan { start: Start::AtBegin, hash_key: rng.next_u64(), steps });
+            sc.threads.push(ThreadPlan { start: Start::AtBegin, hash_key: rng.next_u64(), steps, stack_kb: 0 });
         }
         let all_sites = if a5::verif::site::COUNT >= 32 { u32::MAX } else { (1u32 << a5::verif::site::COUNT) - 1 };
         sc.yield_mask = match rng.below(10) {
